@@ -27,7 +27,7 @@ func verifC03RoundTrip(src []int, w, h, c, p int) (why string) {
 			why = fmt.Sprintf("panic=%q", fmt.Sprint(r))
 		}
 	}()
-	enc, err := Encode(verifPack(src, p), w, h, c, p)
+	enc, err := Encode(verifJlsPack(src, p), w, h, c, p)
 	if err != nil {
 		return fmt.Sprintf("encode_err=%q", err.Error())
 	}
@@ -38,11 +38,11 @@ func verifC03RoundTrip(src []int, w, h, c, p int) (why string) {
 	if dw != w || dh != h || dc != c || dp != p {
 		return fmt.Sprintf("geometry got=%dx%dx%d/P%d", dw, dh, dc, dp)
 	}
-	got, ok := verifUnpack(out, p, w*h*c)
+	got, ok := verifJlsUnpack(out, p, w*h*c)
 	if !ok {
 		return fmt.Sprintf("decoded_len=%d want_samples=%d", len(out), w*h*c)
 	}
-	if i := verifFirstDiff(src, got); i >= 0 {
+	if i := verifJlsFirstDiff(src, got); i >= 0 {
 		n := 0
 		for j := range src {
 			if src[j] != got[j] {
@@ -54,13 +54,13 @@ func verifC03RoundTrip(src []int, w, h, c, p int) (why string) {
 	return ""
 }
 
-// verifPerP keeps per-precision case / failure counts.
-type verifPerP struct {
+// verifJlsPerP keeps per-precision case / failure counts.
+type verifJlsPerP struct {
 	cases, fails [17]int
 	minimal      [17]string
 }
 
-func (pp *verifPerP) String() string {
+func (pp *verifJlsPerP) String() string {
 	var sb strings.Builder
 	for p := 2; p <= 16; p++ {
 		if pp.cases[p] == 0 {
@@ -79,7 +79,7 @@ func TestVerif_C03_RoundTripStructured(t *testing.T) {
 	sizes := []size{{1, 1}, {1, 2}, {2, 1}, {2, 2}, {3, 3}, {1, 17}, {17, 1}, {8, 8}, {33, 5}, {40, 40}}
 	reps := 3
 	big := map[size]bool{} // sizes visited with a single variant
-	if verifThorough() {
+	if verifJlsThorough() {
 		sizes = append(sizes, size{64, 64}, size{300, 3}, size{5, 70}, size{512, 512}, size{65535, 1}, size{1, 4099})
 		big[size{512, 512}], big[size{65535, 1}] = true, true
 		reps = 12
@@ -88,27 +88,27 @@ func TestVerif_C03_RoundTripStructured(t *testing.T) {
 	for _, s := range sizes {
 		sz = append(sz, fmt.Sprintf("%dx%d", s.w, s.h))
 	}
-	rep := verifNewReport(t, "TestVerif_C03_RoundTripStructured", fmt.Sprintf(
+	rep := verifJlsNewReport(t, "TestVerif_C03_RoundTripStructured", fmt.Sprintf(
 		"lossless.Encode->Decode; P in 2..16 x components {1,3} x WxH {%s} x contents {%s} x %d seeded variants (1 for sizes above 60000 samples) (seed %d)",
-		strings.Join(sz, ","), strings.Join(verifContentKinds, ","), reps, verifSeed()))
-	var pp verifPerP
+		strings.Join(sz, ","), strings.Join(verifJlsContentKinds, ","), reps, verifJlsSeed()))
+	var pp verifJlsPerP
 	perKind := map[string]int{}
 	for p := 2; p <= 16; p++ {
 		for _, c := range []int{1, 3} {
 			for _, s := range sizes {
-				for _, kind := range verifContentKinds {
+				for _, kind := range verifJlsContentKinds {
 					for v := 0; v < reps; v++ {
 						if v > 0 && big[s] {
 							break
 						}
-						r := verifNewRNG(fmt.Sprintf("c03s/%d/%d/%dx%d/%s/%d", p, c, s.w, s.h, kind, v))
-						src := verifGenImage(kind, s.w, s.h, c, p, 0, r)
+						r := verifJlsNewRNG(fmt.Sprintf("c03s/%d/%d/%dx%d/%s/%d", p, c, s.w, s.h, kind, v))
+						src := verifJlsGenImage(kind, s.w, s.h, c, p, 0, r)
 						rep.cases++
 						pp.cases[p]++
 						if why := verifC03RoundTrip(src, s.w, s.h, c, p); why != "" {
 							pp.fails[p]++
 							perKind[kind]++
-							rep.fail("P=%d comps=%d w=%d h=%d kind=%s variant=%d %s src=%s", p, c, s.w, s.h, kind, v, why, verifFmtSamples(src))
+							rep.fail("P=%d comps=%d w=%d h=%d kind=%s variant=%d %s src=%s", p, c, s.w, s.h, kind, v, why, verifJlsFmtSamples(src))
 						}
 					}
 				}
@@ -141,7 +141,7 @@ func TestVerif_C03_RoundTripExhaustive(t *testing.T) {
 		}
 	}
 	maxPix3 := 2
-	if verifThorough() {
+	if verifJlsThorough() {
 		maxPix3 = 3
 	}
 	for w := 1; w <= 3; w++ {
@@ -160,10 +160,10 @@ func TestVerif_C03_RoundTripExhaustive(t *testing.T) {
 	cfgs = append(cfgs, cfg{4, 3, 1, 1, 1})
 	// P=3: every image up to 2x2 / 1x3 / 3x1 (1 component)
 	cfgs = append(cfgs, cfg{3, 1, 1, 1, 1}, cfg{3, 1, 2, 1, 1}, cfg{3, 1, 1, 2, 1}, cfg{3, 1, 3, 1, 1}, cfg{3, 1, 1, 3, 1}, cfg{3, 1, 2, 2, 1})
-	rep := verifNewReport(t, "TestVerif_C03_RoundTripExhaustive", fmt.Sprintf(
+	rep := verifJlsNewReport(t, "TestVerif_C03_RoundTripExhaustive", fmt.Sprintf(
 		"lossless.Encode->Decode, ALL images: P=2 1 comp WxH<=3x3 (3x3 image-code stride %d), P=2 3 comps up to %d pixels, P=4 1 comp WxH<=2x2, P=4 3 comps 1x1, P=3 1 comp {1x1,2x1,1x2,3x1,1x3,2x2}",
 		stride33, maxPix3))
-	var pp verifPerP
+	var pp verifJlsPerP
 	for _, g := range cfgs {
 		n := g.w * g.h * g.c
 		base := 1 << uint(g.p)
@@ -174,7 +174,7 @@ func TestVerif_C03_RoundTripExhaustive(t *testing.T) {
 		src := make([]int, n)
 		start := 0
 		if g.stride > 1 {
-			start = int(verifSeed() % uint64(g.stride))
+			start = int(verifJlsSeed() % uint64(g.stride))
 		}
 		for code := start; code < total; code += g.stride {
 			v := code
@@ -186,7 +186,7 @@ func TestVerif_C03_RoundTripExhaustive(t *testing.T) {
 			pp.cases[g.p]++
 			if why := verifC03RoundTrip(src, g.w, g.h, g.c, g.p); why != "" {
 				pp.fails[g.p]++
-				rep.fail("P=%d comps=%d w=%d h=%d %s src=%s", g.p, g.c, g.w, g.h, why, verifFmtSamples(src))
+				rep.fail("P=%d comps=%d w=%d h=%d %s src=%s", g.p, g.c, g.w, g.h, why, verifJlsFmtSamples(src))
 			}
 		}
 	}
@@ -218,21 +218,21 @@ func TestVerif_C03_WrapMinimal(t *testing.T) {
 	// images are enumerated from the smallest upwards so that the first failure per P is a minimal one
 	type size struct{ w, h int }
 	sizes := []size{{1, 1}, {2, 1}, {1, 2}, {3, 1}, {1, 3}, {2, 2}}
-	if verifThorough() {
+	if verifJlsThorough() {
 		sizes = append(sizes, size{4, 1}, size{1, 4}, size{5, 1}, size{1, 5}, size{3, 2}, size{2, 3})
 	}
 	var sz []string
 	for _, s := range sizes {
 		sz = append(sz, fmt.Sprintf("%dx%d", s.w, s.h))
 	}
-	rep := verifNewReport(t, "TestVerif_C03_WrapMinimal", fmt.Sprintf(
+	rep := verifJlsNewReport(t, "TestVerif_C03_WrapMinimal", fmt.Sprintf(
 		"lossless.Encode->Decode, 1 component, P in 2..16, WxH in {%s} (ascending), every assignment of the boundary values {0,1,R/2-1,R/2,R/2+1,MAXVAL-1,MAXVAL} (R=2^P) to the samples; 1x1: every value (quick tier: for P<=12)",
 		strings.Join(sz, ",")))
-	var pp verifPerP
+	var pp verifJlsPerP
 	for p := 2; p <= 16; p++ {
 		for _, s := range sizes {
 			vals := verifC03BoundaryValues(p)
-			if s.w*s.h == 1 && (p <= 12 || verifThorough()) {
+			if s.w*s.h == 1 && (p <= 12 || verifJlsThorough()) {
 				vals = vals[:0]
 				for v := 0; v < 1<<uint(p); v++ { // every 1x1 image
 					vals = append(vals, v)
@@ -255,8 +255,8 @@ func TestVerif_C03_WrapMinimal(t *testing.T) {
 				if why := verifC03RoundTrip(src, s.w, s.h, 1, p); why != "" {
 					pp.fails[p]++
 					if pp.minimal[p] == "" {
-						pp.minimal[p] = fmt.Sprintf("P%d:%dx%d%s", p, s.w, s.h, verifFmtSamples(src))
-						rep.fail("P=%d comps=1 w=%d h=%d %s src=%s", p, s.w, s.h, why, verifFmtSamples(src))
+						pp.minimal[p] = fmt.Sprintf("P%d:%dx%d%s", p, s.w, s.h, verifJlsFmtSamples(src))
+						rep.fail("P=%d comps=1 w=%d h=%d %s src=%s", p, s.w, s.h, why, verifJlsFmtSamples(src))
 					} else {
 						rep.fails++
 					}
@@ -325,12 +325,12 @@ func TestVerif_C03_GolombMappedValue(t *testing.T) {
 	phases := []int{0, 1, 3, 7, 8, 12}
 	riJ := []int{0, 7, 15} // run-interruption limits LIMIT-J-1 for these J values in addition to LIMIT
 	samples := 150
-	if verifThorough() {
+	if verifJlsThorough() {
 		phases = []int{0, 1, 2, 3, 4, 5, 6, 7, 8, 9, 12, 15, 16, 17}
 		riJ = []int{0, 1, 2, 3, 4, 5, 6, 7, 8, 9, 10, 11, 12, 13, 14, 15}
 		samples = 600
 	}
-	rep := verifNewReport(t, "TestVerif_C03_GolombMappedValue", fmt.Sprintf(
+	rep := verifJlsNewReport(t, "TestVerif_C03_GolombMappedValue", fmt.Sprintf(
 		"GolombWriter.EncodeMappedValue->GolombReader.DecodeValue (+3-bit sentinel); k in 0..16 x (LIMIT,qbpp) of ComputeCodingParameters(2^P-1,0) for P in 2..16, limits {LIMIT} u {LIMIT-J-1 : J in %v} x mapped value in 0..2^qbpp (all for P<=10, else boundaries + %d seeded) x writer phase (leading 1-bits) in %v",
 		riJ, samples, phases))
 	for p := 2; p <= 16; p++ {
@@ -368,7 +368,7 @@ func TestVerif_C03_GolombMappedValue(t *testing.T) {
 					for _, m := range []int{0, 1, 2, 3, top - 2, top - 1, top, top / 2, top/2 - 1, top/2 + 1, 254, 255, 256, 257, 511, 512, 65535} {
 						add(m)
 					}
-					r := verifNewRNG(fmt.Sprintf("c03g/%d/%d/%d", p, limit, k))
+					r := verifJlsNewRNG(fmt.Sprintf("c03g/%d/%d/%d", p, limit, k))
 					for i := 0; i < samples; i++ {
 						add(r.intn(top + 1))
 					}
@@ -439,10 +439,10 @@ func verifC03RunLengthCase(tr Traits, run, remaining, idx0, phase int) (why stri
 
 func TestVerif_C03_RunLength(t *testing.T) {
 	phases := []int{0, 5}
-	if verifThorough() {
+	if verifJlsThorough() {
 		phases = []int{0, 1, 5, 7, 8, 13}
 	}
-	rep := verifNewReport(t, "TestVerif_C03_RunLength", fmt.Sprintf(
+	rep := verifJlsNewReport(t, "TestVerif_C03_RunLength", fmt.Sprintf(
 		"RunModeScanner.EncodeRunLength->DecodeRunLength (+3-bit sentinel, RunIndex equality); remaining-in-line R in 1..301 x run length 0..min(R,300) (end-of-line iff run==R) x initial RunIndex 0..31 x writer phase %v",
 		phases))
 	tr := NewTraits(255, 0, 64)
